@@ -461,6 +461,8 @@ class Body:
                 return ("int", int(c["int"]), c["ty"])
             if "str" in c:
                 return ("str", c["str"])
+            if "strs" in c:
+                return ("strs", tuple(c["strs"]))
             if c.get("zst"):
                 return ("zst", c["ty"])
             if "tyconst" in c:
@@ -608,7 +610,7 @@ def leaves(t):
 
 def _leaves(t, out):
     k = t[0]
-    if k in ("arg", "var", "undef", "loop", "int", "str", "zst", "fn", "const", "tyconst"):
+    if k in ("arg", "var", "undef", "loop", "int", "str", "strs", "zst", "fn", "const", "tyconst"):
         out.add(path_str(t))
     elif k in ("field", "deref", "downcast", "index", "cindex", "subslice", "proj"):
         root = path_root(t)
@@ -681,6 +683,8 @@ def path_str(t):
         return "str:%r" % t[1]
     if k == "zst":
         return "zst"
+    if k == "strs":
+        return "strs:%r" % (list(t[1]),)
     if k == "fn":
         return "fn:" + t[1]
     if k == "call":
